@@ -194,6 +194,14 @@ func ruleComposedSQL(w *World, r *Run, rule string) {
 				good, why = false, "write without a preceding read in the same transaction"
 			}
 		}
+		// the stored checkpoint that Update examines is the column scanned from this transaction's query, nothing else
+		for _, pe := range calls(s, cParse) {
+			if len(pe.Args) == 4 && pe.Args[0].Kind != "param" && !(pe.Args[0].Kind == "call" && pe.Args[0].Name == cSign) {
+				if !(query != nil && scannedFrom(pe.Args[0], query.Res)) {
+					good, why = false, "the previous checkpoint examined is "+short(pe.Args[0].String())+", not the value scanned from the query of this update's transaction (state kept outside the database)"
+				}
+			}
+		}
 		if commit != nil && (exec == nil || exec.Seq > commit.Seq || !okBefore(s, *exec, commit.Seq)) {
 			good, why = false, "Commit without a successful statement before it"
 		}
@@ -232,8 +240,31 @@ func ruleComposedSQL(w *World, r *Run, rule string) {
 				}
 			}
 		}
+		for _, s := range g.sums {
+			if len(s.Rets) != 2 || s.Rets[1].Kind != "nil" {
+				continue
+			}
+			var q *Event
+			for i := range s.Events {
+				if m, _, onDB := sqlMethod(s.Events[i]); onDB && strings.HasPrefix(m, "Query") {
+					q = &s.Events[i]
+				}
+			}
+			good := q != nil && scannedFrom(s.Rets[0], q.Res)
+			r.Check(good, rule, fnGetCheckpoint+" ∘ sql | returns the column scanned from the row selected for the requested log", w.pos(s.RetPos), "the read API answers "+short(s.Rets[0].String())+", which is not the value scanned from the database in this call (a cache or other state outside the database can serve a checkpoint that was never committed)")
+		}
 		if nq == 0 {
 			r.Undecided(rule, fnGetCheckpoint+" ∘ sql", "", "no query on the composed read path")
 		}
 	}
+}
+
+
+// scannedFrom: t is the value written by Scan on the row(s) returned by query result q.
+func scannedFrom(t, q *Term) bool {
+	if t == nil || t.Kind != "out" || len(t.Args) < 1 {
+		return false
+	}
+	c := t.Args[0]
+	return c.Kind == "call" && strings.HasSuffix(c.Name, ").Scan") && len(c.Args) >= 2 && c.Args[1] == q
 }
